@@ -20,6 +20,111 @@ func init() {
 		Rule{Name: "C16-R6-width-validation", Doc: "NewIntItem / NewUintItem / NewFloatItem build values only after the width argument itself — the int the caller passed, not a narrowed copy — was found equal to one of the valid widths (1, 2, 4, 8; floats 4, 8); every other width yields an item carrying an error", Run: c16WidthValidation})
 }
 
+func init() {
+	registry["C01"].Rules = append(registry["C01"].Rules,
+		Rule{Name: "C01-R11-size-limit", Doc: "MaxByteSize is the E5 limit 2^24−1 and every constructor (and the header writer) refuses a payload only when its byte length is strictly greater: an item of exactly the limit is still constructible, one byte more is not", Run: c01SizeLimit})
+	registry["C16"].Rules = append(registry["C16"].Rules,
+		Rule{Name: "C16-R7-binary-range", Doc: "NewBinaryItem stores an int or numeric-string argument as a byte only after it was found inside [0, 255], and both ends of that range are accepted: 0 and 255 are valid bytes, −1 and 256 are errors", Run: c16BinaryRange})
+}
+
+func c01SizeLimit(r *Run) {
+	const rule = "C01-R11-size-limit"
+	w := r.W
+	k := w.ConstInt("secs2", "MaxByteSize")
+	r.Check(k == 1<<24-1, rule, "MaxByteSize = 2^24−1", w.Obj("secs2", "MaxByteSize").Pos(), "16777215", fmt.Sprintf("the E5 length field has three bytes: the limit is 16777215, the constant is %d", k))
+	n := 0
+	for _, name := range []string{"NewASCIIItem", "NewJIS8Item", "NewLocalizedStrItem", "NewBinaryItem", "NewBooleanItem", "NewIntItem", "NewUintItem", "NewFloatItem", "NewListItem", "appendHeaderBytesFC"} {
+		fn := w.Fn("secs2", name)
+		r.Analysed(w.FnName(fn))
+		found := 0
+		eachInstr(fn, func(in ssa.Instruction) {
+			b, ok := in.(*ssa.BinOp)
+			if !ok {
+				return
+			}
+			switch b.Op {
+			case token.LSS, token.LEQ, token.GTR, token.GEQ, token.EQL, token.NEQ:
+			default:
+				return
+			}
+			kx, xK := constInt(b.X)
+			ky, yK := constInt(b.Y)
+			near := func(v int64) bool { return v >= k-2 && v <= k+2 }
+			if !(xK && near(kx)) && !(yK && near(ky)) {
+				return
+			}
+			found++
+			n++
+			// accepted forms: q > K, K < q  (error/refusal on true)
+			good := (b.Op == token.GTR && yK && ky == k) || (b.Op == token.LSS && xK && kx == k) ||
+				(b.Op == token.GEQ && yK && ky == k+1) || (b.Op == token.LEQ && xK && kx == k+1)
+			r.Check(good, rule, fmt.Sprintf("%s: size guard %s", name, render(b)), b.Pos(), "quantity > MaxByteSize", "the guard must refuse exactly the sizes above the limit (an item of exactly 16777215 bytes is valid): "+render(b))
+			// and the true side must be the refusing side
+			if good {
+				refuses := false
+				for _, ref := range *b.Referrers() {
+					iff, ok := ref.(*ssa.If)
+					if !ok {
+						continue
+					}
+					tb := iff.Block().Succs[0]
+					for _, in2 := range tb.Instrs {
+						if c, ok := in2.(*ssa.Call); ok {
+							if g := calleeOf(c).Static; g != nil && (strings.HasPrefix(g.Name(), "setError") || strings.Contains(g.Name(), "Errorf") || g.Name() == "New") {
+								refuses = true
+							}
+						}
+						if ret, ok := in2.(*ssa.Return); ok && len(ret.Results) > 0 {
+							refuses = true
+						}
+					}
+				}
+				r.Check(refuses, rule, fmt.Sprintf("%s: a size above the limit is refused", name), b.Pos(), "error on the true side", "the branch taken for an oversize payload does not record an error")
+			}
+		})
+		r.Check(found >= 1, rule, name+" checks the size limit", fn.Pos(), "present", "no comparison with MaxByteSize: an oversize payload would be accepted")
+	}
+	r.Floor(rule, "size-limit comparisons", n, 10)
+}
+
+func c16BinaryRange(r *Run) {
+	const rule = "C16-R7-binary-range"
+	w := r.W
+	fn := w.Fn("secs2", "BinaryItem.combineBinaryValues")
+	r.Analysed(w.FnName(fn))
+	e := newBndEngine(w, "c16-binary", []*ssa.Function{fn}, nil)
+	e.entries[fn] = true
+	e.run()
+	if len(e.ctxs[fn]) == 0 {
+		r.Undecided(rule, "combineBinaryValues analysed", fn.Pos(), "no context")
+		return
+	}
+	c := e.ctxs[fn][0]
+	n := 0
+	eachInstr(fn, func(in ssa.Instruction) {
+		cv, ok := in.(*ssa.Convert)
+		if !ok || typeBits(cv.Type()) != 8 || !isIntType(cv.X.Type()) || typeBits(cv.X.Type()) <= 8 {
+			return
+		}
+		n++
+		v := c.lin(cv.X)
+		b, idx := cv.Block(), blockIndexOf(cv)
+		what := shortRender(cv.X)
+		q1, ok1 := leq(linConst(0), v, "")
+		q2, ok2 := leq(v, linConst(255), "")
+		r.Check(ok1 && c.proveAt(b, idx, q1), rule, "narrowed to a byte only when ≥ 0: "+what, cv.Pos(), "v ≥ 0", "a negative argument would wrap into a byte instead of being refused")
+		r.Check(ok2 && c.proveAt(b, idx, q2), rule, "narrowed to a byte only when ≤ 255: "+what, cv.Pos(), "v ≤ 255", "an argument above 255 would wrap into a byte instead of being refused")
+		for _, edge := range []int64{0, 255} {
+			qa, _ := leq(v, linConst(edge), "")
+			qb, _ := leq(linConst(edge), v, "")
+			fs := c.factsAt(b, idx)
+			fs.ineqs = append(fs.ineqs, qa, qb)
+			r.Check(!c.entailsSat(fs, Ineq{linConst(1), ""}), rule, fmt.Sprintf("the value %d is still accepted: %s", edge, what), cv.Pos(), "boundary value reachable", fmt.Sprintf("the guards refuse %d, which is a valid byte", edge))
+		}
+	})
+	r.Floor(rule, "int → byte narrowings in combineBinaryValues", n, 2)
+}
+
 func c17LineEngine(r *Run) {
 	const rule = "C17-R7-line-engine-table"
 	w := r.W
